@@ -282,4 +282,53 @@ def unit4Calls : List (String × String × String × String) := [
   ("VirtualMemoryArray", "_write_body", "write_bytes", "fp, self.data")
 ]
 
+/-! ### unit 5: linked_layer.py -/
+
+def linkedLayerTypes : List (List UInt8) := [[108, 105, 70, 65], [108, 105, 70, 68], [108, 105, 70, 69]]
+def linkedData : List UInt8 := [108, 105, 70, 68]
+def linkedExternal : List UInt8 := [108, 105, 70, 69]
+def linkedAlias : List UInt8 := [108, 105, 70, 65]
+def linkedVersionMin : Nat := 1
+def linkedVersionMax : Nat := 7
+def linkedConditions : List (String × String × String) := [
+  ("LinkedLayer", "read", "open_file; kind == LinkedLayerType.EXTERNAL; version > 3; version > 2; kind == LinkedLayerType.ALIAS; kind == LinkedLayerType.DATA; version >= 5; version >= 6; version >= 7; kind == LinkedLayerType.EXTERNAL and version == 2"),
+  ("LinkedLayer", "write", "self.open_file is not None; self.kind == LinkedLayerType.EXTERNAL; self.version > 3; self.version > 2; self.kind == LinkedLayerType.ALIAS; self.kind == LinkedLayerType.DATA; self.child_id is not None; self.mod_time is not None; self.lock_state is not None; self.kind == LinkedLayerType.EXTERNAL and self.version == 2")
+]
+def unit5Registry : List (List UInt8 × String) := [
+  ([108, 110, 107, 50], "LinkedLayers"),
+  ([108, 110, 107, 51], "LinkedLayers"),
+  ([108, 110, 107, 68], "LinkedLayers"),
+  ([108, 110, 107, 69], "LinkedLayers")
+]
+def unit5Calls : List (String × String × String × String) := [
+  ("LinkedLayers", "read", "is_readable", "fp, 8"),
+  ("LinkedLayers", "read", "read_length_block", "fp, fmt='Q', padding=4"),
+  ("LinkedLayers", "write", "write_length_block", "fp, item.write, fmt='Q', padding=4"),
+  ("LinkedLayer", "read", "read_fmt", "'4s', fp"),
+  ("LinkedLayer", "read", "read_fmt", "'I', fp"),
+  ("LinkedLayer", "read", "read_pascal_string", "fp, 'macroman', padding=1"),
+  ("LinkedLayer", "read", "read_unicode_string", "fp"),
+  ("LinkedLayer", "read", "read_fmt", "'4s4sQB', fp"),
+  ("LinkedLayer", "read", "read_fmt", "'I4Bd', fp"),
+  ("LinkedLayer", "read", "read_fmt", "'Q', fp"),
+  ("LinkedLayer", "read", "read_fmt", "'8x', fp"),
+  ("LinkedLayer", "read", "read_unicode_string", "fp"),
+  ("LinkedLayer", "read", "read_fmt", "'d', fp"),
+  ("LinkedLayer", "read", "read_fmt", "'B', fp"),
+  ("LinkedLayer", "write", "write_fmt", "fp, '4sI', self.kind.value, self.version"),
+  ("LinkedLayer", "write", "write_pascal_string", "fp, self.uuid, 'macroman', padding=1"),
+  ("LinkedLayer", "write", "write_unicode_string", "fp, self.filename"),
+  ("LinkedLayer", "write", "write_fmt", "fp, '4s4sQB', self.filetype, self.creator, len(self.data) if self.data is not None else 0, self.open_file is not None"),
+  ("LinkedLayer", "write", "write_fmt", "fp, 'I4Bd', *self.timestamp"),
+  ("LinkedLayer", "write", "write_fmt", "fp, 'Q', self.filesize"),
+  ("LinkedLayer", "write", "write_bytes", "fp, self.data"),
+  ("LinkedLayer", "write", "write_fmt", "fp, '8x'"),
+  ("LinkedLayer", "write", "write_bytes", "fp, self.data"),
+  ("LinkedLayer", "write", "write_unicode_string", "fp, self.child_id"),
+  ("LinkedLayer", "write", "write_fmt", "fp, 'd', self.mod_time"),
+  ("LinkedLayer", "write", "write_fmt", "fp, 'B', self.lock_state"),
+  ("LinkedLayer", "write", "write_bytes", "fp, self.data"),
+  ("LinkedLayer", "write", "write_padding", "fp, written, padding")
+]
+
 end PsdVerif.Payload.Tables
